@@ -460,7 +460,7 @@ func init() {
 	core.Register(&core.Prop{
 		ID:    "C11",
 		Level: "model_checking",
-		Rule: "bounded-exhaustive matrices: EVERY n x n matrix over an alphabet (n=1,2 over {0,1,2,3,0x100b,0xffff}; n=3 over {0,1,2,0xffff}; n=4 over {0,1}, thorough over {0,1,2} = 3^16); every permutation matrix and permutation x diagonal for n<=7; for n in 5..40,100(,300): Vandermonde, Cauchy, triangular, rank n-1 with the dependent row at every position, a needed row swap at every pivot position (adjacent and with the last row), a zero column at every position; RowReduceForInverse with N=I and a non-square N; Times on every pair of shapes <=3x3x3 over a 4-symbol alphabet. " +
+		Rule: "bounded-exhaustive matrices: EVERY n x n matrix over an alphabet (n=1,2 over {0,1,2,3,0x100b,0xffff}; n=3 over {0,1,2,0xffff}; n=4 over {0,1}, thorough over {0,1,2} = 3^16); every permutation matrix and permutation x diagonal for n<=7; for n in 5..40,100(,300): Vandermonde, Cauchy, triangular, rank n-1 with the dependent row at every position, a needed row swap at every pivot position (adjacent and with the last row), a zero column at every position; RowReduceForInverse with N=I and a non-square N; Times on every pair of shapes <=3x3x3 over a 4-symbol alphabet and on 2 x k x 3 / 3 x k x 2 products for inner dimensions k around every power of two from 16 to 512 (dense rows, one zero per row, one non-zero per row). " +
 			"Oracle: reference determinant (cofactor) and adjugate for n<=4, reference elimination rank + products for larger n; operands compared element-wise before/after each call, and the operands of the last 12 calls (successful or failed) again after every later call. non-trivial = chunk containing both singular and non-singular matrices / structured family",
 		Assumptions: []string{"ref/lin uses a different elimination order (last candidate pivot) and cofactor expansion; it shares only ref/gf16 with nothing of gopar"},
 		NewCase:     func() interface{} { return &c11Case{} },
